@@ -17,6 +17,7 @@
 #include <errno.h>
 #include <pthread.h>
 #include <sys/epoll.h>
+#include <sys/eventfd.h>
 #include <sys/select.h>
 #include <time.h>
 #include <unistd.h>
@@ -28,12 +29,16 @@
 #include <memory>
 #include <mutex>
 #include <stdexcept>
+#include <cstring>
 #include <algorithm>
 #include <thread>
 #include <tbox/event/loop.h>
 #include <tbox/base/log_output.h>
 
 using tbox::event::Loop;
+#if defined(__SANITIZE_ADDRESS__)
+extern "C" int __lsan_do_recoverable_leak_check(void);
+#endif
 
 // ------------------------------------------------------------------ shared state
 static thread_local int tl_idx = -1;            // worker index of this thread
@@ -67,6 +72,13 @@ static pthread_cond_t gcv = PTHREAD_COND_INITIALIZER;
 static bool g_go = false, g_stop_req = false, g_blocked_evt = false;
 static uint64_t g_park_gen = 0;
 static std::vector<std::string> g_out;
+
+// kernel answers chosen by the op file (`fault …`), one-shot, consumed by the next matching system call
+static std::atomic<int> g_f_poll{0};          // 0 ok, 1 EINTR, 2 hard error, 3 spurious readiness of the eventfd
+static std::atomic<bool> g_f_wr{false}, g_f_rd{false}, g_f_efd{false};
+static std::atomic<int> g_efd{-1};            // the loop's eventfd (learnt from eventfd())
+static std::atomic<long long> g_last_wait{-2};   // timeout (ms) handed to the last poll of the loop thread
+static void clear_faults() { g_f_poll = 0; g_f_wr = false; g_f_rd = false; g_f_efd = false; }
 
 typedef int (*mlock_t)(pthread_mutex_t *);
 typedef int (*epw_t)(int, struct epoll_event *, int, int);
@@ -121,17 +133,68 @@ static void park_hook() {
     if (stop) g_loop->exitLoop();
 }
 
+// free-running mode: now and then the poll is "interrupted by a signal" (never twice in a row)
+static thread_local bool tl_last_intr = false;
+static bool inject_intr() {
+    if (!g_delay.load(std::memory_order_relaxed) || tl_last_intr) { tl_last_intr = false; return false; }
+    tl_last_intr = (rnd() >> 35) % 8 == 0;
+    return tl_last_intr;
+}
 extern "C" int epoll_wait(int epfd, struct epoll_event *ev, int n, int timeout) {
     if (!real_epw) real_epw = (epw_t)dlsym(RTLD_NEXT, "epoll_wait");
-    if (tl_runloop && g_seq_mode) { park_hook(); return real_epw(epfd, ev, n, 0); }
-    if (tl_runloop) { trec("PW"); int r = real_epw(epfd, ev, n, timeout); trec("PR"); return r; }
+    if (tl_runloop && g_seq_mode) {
+        g_last_wait = timeout;
+        park_hook();
+        int f = g_f_poll.exchange(0);
+        if (f == 1) { errno = EINTR; return -1; }
+        if (f == 2) { errno = EINVAL; return -1; }
+        int r = real_epw(epfd, ev, n, 0);
+        int efd = g_efd.load();
+        if (f == 3 && efd >= 0 && r >= 0 && r < n) {
+            bool have = false;
+            for (int i = 0; i < r; ++i) if (ev[i].data.fd == efd) have = true;
+            if (!have) { memset(&ev[r], 0, sizeof(ev[r])); ev[r].events = EPOLLIN; ev[r].data.fd = efd; ++r; }
+        }
+        return r;
+    }
+    if (tl_runloop) {
+        trec("PW");
+        if (inject_intr()) { trec("PI"); errno = EINTR; return -1; }
+        int r = real_epw(epfd, ev, n, timeout); trec("PR"); return r;
+    }
     return real_epw(epfd, ev, n, timeout);
 }
 extern "C" int select(int nfds, fd_set *r, fd_set *w, fd_set *e, struct timeval *tv) {
     if (!real_sel) real_sel = (sel_t)dlsym(RTLD_NEXT, "select");
-    if (tl_runloop && g_seq_mode) { park_hook(); struct timeval z = {0, 0}; return real_sel(nfds, r, w, e, &z); }
-    if (tl_runloop) { trec("PW"); int rc = real_sel(nfds, r, w, e, tv); trec("PR"); return rc; }
+    if (tl_runloop && g_seq_mode) {
+        // the code fills tv_usec with `wait_ms % 1000`; a repaired conversion would store microseconds: accept both
+        g_last_wait = !tv ? -1 : (long long)tv->tv_sec * 1000 + (tv->tv_usec < 1000 ? tv->tv_usec : tv->tv_usec / 1000);
+        park_hook();
+        int f = g_f_poll.exchange(0);
+        if (f == 1) { errno = EINTR; return -1; }
+        if (f == 2) { errno = EINVAL; return -1; }
+        struct timeval z = {0, 0};
+        int efd = g_efd.load();
+        bool want = f == 3 && efd >= 0 && efd < nfds && r && FD_ISSET(efd, r);
+        int rc = real_sel(nfds, r, w, e, &z);
+        if (want && rc >= 0 && !FD_ISSET(efd, r)) { FD_SET(efd, r); ++rc; }
+        return rc;
+    }
+    if (tl_runloop) {
+        trec("PW");
+        if (inject_intr()) { trec("PI"); errno = EINTR; return -1; }
+        int rc = real_sel(nfds, r, w, e, tv); trec("PR"); return rc;
+    }
     return real_sel(nfds, r, w, e, tv);
+}
+typedef int (*efd_t)(unsigned int, int);
+extern "C" int eventfd(unsigned int initval, int flags) {
+    static efd_t real = (efd_t)dlsym(RTLD_NEXT, "eventfd");
+    if (g_seq_mode && g_f_efd.exchange(false)) { g_efd = -1; errno = EMFILE; return -1; }
+    int fd = real(initval, flags);
+    if (g_seq_mode) g_efd = fd;
+    else if (tl_ev) trec("EF");      // free-running mode: the critical section of loop start is the one that follows
+    return fd;
 }
 extern "C" int pthread_mutex_lock(pthread_mutex_t *m) {
     resolve();
@@ -159,6 +222,7 @@ extern "C" int pthread_mutex_unlock(pthread_mutex_t *m) {
 extern "C" ssize_t read(int fd, void *buf, size_t n) {
     if (!real_rd) real_rd = (rd_t)dlsym(RTLD_NEXT, "read");
     if (n == 8 && tl_idx >= 0) maybe_delay();          // the eventfd
+    if (n == 8 && g_seq_mode && fd == g_efd.load() && g_f_rd.exchange(false)) { errno = EAGAIN; return -1; }
     ssize_t r = real_rd(fd, buf, n);
     if (n == 8 && tl_ev) trec("ER", 1, (uint64_t)(r == 8));
     if (n == 8 && tl_idx >= 0) maybe_delay();
@@ -167,6 +231,7 @@ extern "C" ssize_t read(int fd, void *buf, size_t n) {
 extern "C" ssize_t write(int fd, const void *buf, size_t n) {
     if (!real_wr) real_wr = (wr_t)dlsym(RTLD_NEXT, "write");
     if (n == 8 && tl_idx >= 0) maybe_delay();
+    if (n == 8 && g_seq_mode && fd >= 0 && fd == g_efd.load() && g_f_wr.exchange(false)) { errno = EAGAIN; return -1; }
     ssize_t r = real_wr(fd, buf, n);
     if (n == 8 && tl_ev) trec("EW", 1, (uint64_t)(r == 8));
     if (n == 8 && tl_idx >= 0) maybe_delay();
@@ -199,11 +264,26 @@ static void worker_main(int i) {
 static void post(int t, std::function<void()> f) {
     G g; W[t].job = std::move(f); W[t].has = true; W[t].busy = true; pthread_cond_broadcast(&gcv);
 }
-static void wait_idle(int t) { G g; while (W[t].busy) gwait(); }
+static void flush_out();
+// watchdog: a worker that does not come back within 8 s of REAL time is blocked for good (e.g. on lock_ held by a nested
+// loop that parked): report it instead of waiting for the batch timeout
+static void wait_idle(int t) {
+    static vt::cg_t real_cg = (vt::cg_t)dlsym(RTLD_NEXT, "clock_gettime");
+    struct timespec dl; real_cg(CLOCK_REALTIME, &dl); dl.tv_sec += 8;
+    bool stuck = false;
+    {
+        G g;
+        while (W[t].busy) {
+            if (pthread_cond_timedwait(&gcv, &gm, &dl) == ETIMEDOUT && W[t].busy) { stuck = true; break; }
+        }
+    }
+    if (stuck) { flush_out(); std::cout << "P worker-blocked-for-good\n" << std::flush; _exit(4); }
+}
 
 // ------------------------------------------------------------------ sequentialised mode
 struct Act { char kind; uint64_t a; uint64_t b; };   // i k | n k | c id | x | w t k
 static std::map<uint64_t, std::vector<Act>> g_prog;
+static std::map<uint64_t, bool> g_null;     // template is an EMPTY std::function
 static int g_loop_tid = -1;        // worker inside runLoop (-1 = idle)
 static bool g_destroying = false;
 static int g_late = -1;            // worker whose submission is blocked on lock_
@@ -220,6 +300,12 @@ static void do_submit_in(uint64_t k) {    // on the calling thread
 static void do_submit_next(uint64_t k) {
     auto cell = std::make_shared<uint64_t>(0);
     uint64_t id = g_loop->runNext(make_task(k, cell), "verif");
+    *cell = id;
+    emit("S " + std::to_string(id));
+}
+static void do_submit_run(uint64_t k) {
+    auto cell = std::make_shared<uint64_t>(0);
+    uint64_t id = g_loop->run(make_task(k, cell), "verif");
     *cell = id;
     emit("S " + std::to_string(id));
 }
@@ -255,13 +341,20 @@ static void run_body(const std::vector<Act> &body) {
             case 'n': do_submit_next(a.a); break;
             case 'c': do_cancel(a.a); break;
             case 'x': g_loop->exitLoop(); break;
-            case 't': g_loop->exitLoop(std::chrono::milliseconds(5)); break;   // exit timer (virtual clock; fires after `tick`)
+            case 't': g_loop->exitLoop(std::chrono::milliseconds((int64_t)a.a)); break;   // exit timer (virtual clock)
+            case 'r': do_submit_run(a.a); break;
+            case 'R':    // runLoop() from inside a callable of the running loop
+                // (from a callable of a destructor / cleanup() drain the loop is not running: a real nested loop, outside the model)
+                if (!g_loop->isRunning()) { emit("P nested-skipped"); break; }
+                try { g_loop->runLoop(Loop::Mode::kForever); } catch (const std::exception &e) { emit("P nested-threw"); }
+                emit("P nested-returned"); break;
             case 'w': do_cross(a.a, a.b); break;
             case '!': throw std::runtime_error("verif: callable throws");
         }
     }
 }
 static std::function<void()> make_task(uint64_t k, std::shared_ptr<uint64_t> cell) {
+    if (g_null.count(k) && g_null[k]) return std::function<void()>();
     std::vector<Act> body;                   // the script is captured when the callable is made (= at submission)
     auto it = g_prog.find(k);
     if (it != g_prog.end()) body = it->second;
@@ -274,8 +367,10 @@ static std::function<void()> make_task(uint64_t k, std::shared_ptr<uint64_t> cel
 static bool parse_act(const std::string &w, Act &a) {
     if (w.empty()) return false;
     a.kind = w[0]; a.a = a.b = 0;
-    if (a.kind == 'x' || a.kind == 't' || a.kind == '!') return w.size() == 1;
-    if (a.kind == 'i' || a.kind == 'n' || a.kind == 'c') return vh::to_u64(w.substr(1), a.a) && (a.kind == 'c' || a.a < 64);
+    if (a.kind == 't' && w.size() == 1) { a.a = 5; return true; }
+    if (a.kind == 't') return vh::to_u64(w.substr(1), a.a) && a.a > 0 && a.a < (1ULL << 62);
+    if (a.kind == 'x' || a.kind == '!' || a.kind == 'R') return w.size() == 1;
+    if (a.kind == 'i' || a.kind == 'n' || a.kind == 'c' || a.kind == 'r') return vh::to_u64(w.substr(1), a.a) && (a.kind == 'c' || a.a < 64);
     if (a.kind == 'w') {
         size_t p = w.find('.');
         if (p == std::string::npos) return false;
@@ -291,7 +386,8 @@ static bool parse_body(const std::string &w, std::vector<Act> &out) {
     return !out.empty() && out.size() <= 16;
 }
 
-static void new_loop() { g_loop = Loop::New(g_engine); }
+static void new_loop() { g_loop = Loop::New(g_engine); clear_faults(); g_efd = -1; }
+static void emit_wait() { emit("M wait " + std::to_string(g_last_wait.load())); }
 
 // wait until the loop thread parks at the next poll or leaves runLoop
 static bool wait_parked_or_exit(uint64_t gen0) {   // true = parked
@@ -312,7 +408,19 @@ static void finish_exit() {    // runLoop returned
 static void op_pass(bool stop) {
     uint64_t gen0;
     { G g; gen0 = g_park_gen; g_stop_req = stop; g_go = true; pthread_cond_broadcast(&gcv); }
-    if (wait_parked_or_exit(gen0)) emit("P parked"); else finish_exit();
+    if (wait_parked_or_exit(gen0)) { emit("P parked"); emit_wait(); } else finish_exit();
+}
+static void op_cleanup(int t) {     // the public cleanup() by the owner while the loop is not running
+    g_loop_tid = t;
+    post(t, [] { g_loop->cleanup(); });
+    wait_idle(t);
+    g_loop_tid = -1;
+    emit("P cleaned");
+    if (g_late >= 0) {
+        wait_idle(g_late);
+        emit("S " + std::to_string(g_late_id) + " late");
+        g_late = -1;
+    }
 }
 static void op_destroy(int t) {
     post(t, [] {
@@ -332,7 +440,7 @@ static void finalize_case() {
     }
     op_destroy(0);
     flush_out();
-    g_prog.clear();
+    g_prog.clear(); g_null.clear();
 }
 
 // ------------------------------------------------------------------ stress mode
@@ -407,7 +515,7 @@ static void stress(const std::string &engine, unsigned nsub, unsigned ntasks, ui
         tl_idx = 0; tl_rng = seed * 77 + 1; tl_ev = &evs[0];
         while (!quit.load()) {
             trec("AT");
-            loop->exitLoop(std::chrono::milliseconds(1500));     // safety net: a lost wake-up must not hang the run
+            loop->exitLoop(std::chrono::milliseconds(20000));    // safety net: a lost wake-up must not hang the run (far beyond any run under full machine load)
             trec("RB", 1, 1);
             in_runloop = true;
             tl_runloop = true;
@@ -513,11 +621,26 @@ int main() {
     std::string line;
     bool in_case = false, first_op = true;
     auto begin_case = [&] { g_seq_mode = true; vt::enable(1000, 1700000000000LL); new_loop(); in_case = true; first_op = true; };
-    auto end_case = [&] { if (in_case) { finalize_case(); delete g_loop; g_loop = nullptr; in_case = false; g_engine = "epoll"; } };
+    bool leaked = false;
+    auto end_case = [&] {
+        if (!in_case) return;
+        finalize_case(); delete g_loop; g_loop = nullptr; in_case = false; g_engine = "epoll";
+#if defined(__SANITIZE_ADDRESS__)
+        // a deferred task dropped by a destructor shows as memory that nothing references any more: attribute it to this case
+        if (__lsan_do_recoverable_leak_check()) { std::cout << "P leaked-memory\n" << std::flush; leaked = true; }
+#endif
+    };
+    size_t consumed = 0;    // bytes of stdin handed to the op loop so far
     while (std::getline(std::cin, line)) {
+        size_t line_start = consumed;
+        consumed += line.size() + 1;
         auto w = vh::words(line);
         if (w.empty()) continue;
-        if (w[0] == "case") { end_case(); std::cout << line << "\n"; begin_case(); continue; }
+        if (w[0] == "case") {
+            end_case();
+            leaked = false;
+            std::cout << line << "\n"; begin_case(); continue;
+        }
         if (!in_case) begin_case();
         bool was_first = first_op; first_op = false;
         uint64_t t = 0, k = 0;
@@ -536,8 +659,23 @@ int main() {
             g_engine = w[1]; delete g_loop; new_loop(); std::cout << "P engine\n";
         } else if (op == "prog" && w.size() == 3 && vh::to_u64(w[1], k) && k < 64) {
             std::vector<Act> b;
+            if (w[2] == "~") { g_prog[k] = b; g_null[k] = true; std::cout << "P prog\n"; continue; }
             if (!parse_body(w[2], b)) { std::cout << "bad-op\n"; continue; }
-            g_prog[k] = b; std::cout << "P prog\n";
+            g_prog[k] = b; g_null[k] = false; std::cout << "P prog\n";
+        } else if (op == "srun" && w.size() == 3 && vh::to_u64(w[1], t) && t < NT && vh::to_u64(w[2], k) && k < 64 && (int)t != g_loop_tid) {
+            post((int)t, [k] { tl_in_submit = true; do_submit_run(k); tl_in_submit = false; }); wait_idle((int)t);
+        } else if (op == "fault" && w.size() == 2 && (w[1] == "pintr" || w[1] == "perr" || w[1] == "pspur" || w[1] == "pok" || w[1] == "wr" || w[1] == "rd" || w[1] == "efd")) {
+            if (w[1] == "pintr") g_f_poll = 1; else if (w[1] == "perr") g_f_poll = 2; else if (w[1] == "pspur") g_f_poll = 3; else if (w[1] == "pok") g_f_poll = 0;
+            else if (w[1] == "wr") g_f_wr = true; else if (w[1] == "rd") g_f_rd = true; else g_f_efd = true;
+            emit("P fault");
+        } else if (op == "wl" && w.size() == 3 && vh::to_u64(w[1], t) && vh::to_u64(w[2], k)) {
+            auto &wl = g_loop->water_line();      // extreme settings: every time threshold 0, the two queue sizes as given
+            wl.run_in_loop_queue_size = (size_t)t; wl.run_next_queue_size = (size_t)k;
+            wl.wake_delay = wl.loop_cost = wl.event_cb_cost = wl.run_cb_cost = wl.run_in_loop_delay = wl.run_next_delay = wl.timer_delay =
+                std::chrono::nanoseconds(t == 0 ? -1 : 0);
+            emit("P wl");
+        } else if (op == "cleanup" && w.size() == 2 && vh::to_u64(w[1], t) && t < NT && idle) {
+            op_cleanup((int)t);
         } else if (op == "sub" && w.size() == 3 && vh::to_u64(w[1], t) && t < NT && vh::to_u64(w[2], k) && k < 64 && (int)t != g_loop_tid) {
             post((int)t, [k] { tl_in_submit = true; do_submit_in(k); tl_in_submit = false; }); wait_idle((int)t);
         } else if (op == "next" && w.size() == 3 && vh::to_u64(w[1], t) && t < NT && vh::to_u64(w[2], k) && k < 64 && idle) {
@@ -548,8 +686,12 @@ int main() {
             post((int)t, [] { g_loop->exitLoop(); }); wait_idle((int)t); emit("P exit");
         } else if (op == "exitt" && w.size() == 2 && vh::to_u64(w[1], t) && t < NT && idle) {
             post((int)t, [] { g_loop->exitLoop(std::chrono::milliseconds(5)); }); wait_idle((int)t); emit("P exit");
+        } else if (op == "exitt" && w.size() == 3 && vh::to_u64(w[1], t) && t < NT && idle && vh::to_u64(w[2], k) && k > 0 && k < (1ULL << 62)) {
+            post((int)t, [k] { g_loop->exitLoop(std::chrono::milliseconds((int64_t)k)); }); wait_idle((int)t); emit("P exit");
         } else if (op == "tick" && w.size() == 1) {
             vt::advance_ms(10); emit("P tick");
+        } else if (op == "tick" && w.size() == 2 && vh::to_u64(w[1], k) && k <= (1ULL << 42)) {
+            vt::advance_ms((int64_t)k); emit("P tick");
         } else if (op == "run" && w.size() == 3 && (w[1] == "once" || w[1] == "forever") && vh::to_u64(w[2], t) && t < NT && idle) {
             bool forever = w[1] == "forever";
             uint64_t gen0; { G g; gen0 = g_park_gen; }
@@ -561,7 +703,7 @@ int main() {
                 catch (const std::exception &e) { emit("P runLoop-threw"); }
                 tl_runloop = false;
             });
-            if (wait_parked_or_exit(gen0)) emit("P running"); else finish_exit();
+            if (wait_parked_or_exit(gen0)) { emit("P running"); emit_wait(); } else finish_exit();
         } else if (op == "pass" && w.size() == 1 && !idle) {
             op_pass(false);
         } else if (op == "stop" && w.size() == 1 && !idle) {
@@ -576,5 +718,10 @@ int main() {
     end_case();
     { G g; for (int i = 0; i < NT; ++i) W[i].quit = true; pthread_cond_broadcast(&gcv); }
     for (int i = 0; i < NT; ++i) W[i].th.join();
+#if defined(__SANITIZE_ADDRESS__)
+    // leaks are checked and attributed per case (end_case); the process-wide check at exit would blame the last case of the batch
+    std::cout << std::flush; fflush(stdout);
+    _exit(0);
+#endif
     return 0;
 }
